@@ -74,6 +74,7 @@ def find_def(modname, path):
             k = int(part[8:-1]) if '#' in part else 0
             lams = [n for n in ast.walk(node) if isinstance(n, ast.Lambda)]
             lams.sort(key=lambda n: (n.lineno, n.col_offset))
+            if k >= len(lams): raise Unsupported(f'{modname}:{path}: lambda #{k} not found in the current source')
             node = lams[k]; continue
         body = node.body if not isinstance(node, ast.Lambda) else []
         found = None
